@@ -102,6 +102,7 @@ func (monitor) op(r *FnRun, st *State, x *ssa.Call, k lockOpKind, args []Val) Va
 			r.addGoal(st, "lock.not-reentrant"+site, r.posOf(x), False, nil)
 		}
 		st.locks[key] = 1
+		st.ghost["ghost:obs_zero"] = BVInt(0, 32, false)
 		r.acquire(st, decl, key)
 	case lkUnlock:
 		if st.locks[key] == 0 {
@@ -109,6 +110,7 @@ func (monitor) op(r *FnRun, st *State, x *ssa.Call, k lockOpKind, args []Val) Va
 		}
 		r.release(st, decl, key, "unlock"+site, x)
 		st.locks[key] = 0
+		st.ghost["ghost:obs_zero"] = BVInt(0, 32, false)
 	case lkWait:
 		if st.locks[key] == 0 {
 			r.addGoal(st, "lock.held-at-wait"+site, r.posOf(x), False, nil)
@@ -121,6 +123,7 @@ func (monitor) op(r *FnRun, st *State, x *ssa.Call, k lockOpKind, args []Val) Va
 				r.addGoal(st, "waitinv."+clauseLabel(c, i)+"@wait"+site, r.posOf(x), env.evalBool(c.E), c.Props)
 			}
 		}
+		st.ghost["ghost:obs_zero"] = BVInt(0, 32, false) // the mutex was released while sleeping
 		r.acquire(st, decl, key)
 	}
 	return ret()
